@@ -6,6 +6,7 @@ import GA.Drv.MemE
 import GA.Drv.HistE
 import GA.Drv.HexE
 import GA.Drv.HeapE
+import GA.Drv.SerdeE
 open GA.Drv
 
 def answerLine (line : String) : String :=
@@ -23,6 +24,7 @@ def answerLine (line : String) : String :=
       | "hist" => HistE.answer kv
       | "hex" => HexE.answer kv
       | "heap" => HeapE.answer kv
+      | "serde" => SerdeE.answer kv
       | _ => "bad-engine"
     s!"{seq} {body}"
   | _ => "bad-line"
